@@ -11,6 +11,6 @@ package cmd
 //@ props C09 C14 C19 C20
 //@ requires spok != nil && spok.Options != nil
 //@ requires [history-invariant] forall c string :: {fexists[c]} I01(c)
-//@ modifies spok.stream, spok.logger, spok.Options.Spokfile, foundDir, findReadErr, taskIdx, loadedOK, removed, fexists, fdata, last, ranCount, dagV, dagE, dagItem, dagN, qpos, lastGraph, runPhase, lastResults, fswrites, runCalls, stdoutDocs, listed, lastForce, strmLeft, strmDone, strmExp, strmLastT, strmInput
+//@ modifies spok.stream, spok.logger, spok.Options.Spokfile, foundDir, findReadErr, taskIdx, loadedOK, removed, fexists, fdata, last, ranCount, dagV, dagE, dagItem, dagN, qpos, lastGraph, runPhase, lastResults, fswrites, runCalls, stdoutDocs, listed, lastForce, fsid, dgSeq, fsSeq, execRes, fmtText, tkDepEnd, tkOutEnd, nodeTok, nodeEnd, nodeDepEnd, nodeOutEnd, strmN, strmLeft, strmDone, strmExp, strmLastT, strmInput
 //@ ensures [C09,failing-command-fails-the-command] result == nil && runCalls != old(runCalls) ==> tasksOk(lastResults, len(lastResults))
 //@ ensures [C14,force-flag-reaches-the-run] runCalls != old(runCalls) ==> lastForce == spok.Options.Force
